@@ -584,21 +584,31 @@ func quoteClip(s string) string {
 // runAlone compiles input i in a fresh process; reports whether it finished
 // within the budget.
 func runAlone(i int, budget time.Duration) (finished bool, took time.Duration) {
+	finished, took, _ = runAloneCode(i, budget)
+	return
+}
+
+// runAloneCode also returns the child's exit code (4: memory watchdog, other
+// non-zero: it died).
+func runAloneCode(i int, budget time.Duration) (finished bool, took time.Duration, code int) {
 	cmd := exec.Command(os.Args[0], "-test.run", "^TestC03$", "-test.timeout", "0")
 	cmd.Env = append(os.Environ(), fmt.Sprintf("VERIF_C03_SINGLE=%d", i))
 	t0 := time.Now()
 	if err := cmd.Start(); err != nil {
-		return false, 0
+		return false, 0, -1
 	}
 	done := make(chan error, 1)
 	go func() { done <- cmd.Wait() }()
 	select {
-	case <-done:
-		return true, time.Since(t0)
+	case err := <-done:
+		if ee, ok := err.(*exec.ExitError); ok {
+			code = ee.ExitCode()
+		}
+		return true, time.Since(t0), code
 	case <-time.After(budget):
 		_ = cmd.Process.Kill()
 		<-done
-		return false, time.Since(t0)
+		return false, time.Since(t0), -1
 	}
 }
 
@@ -606,6 +616,16 @@ func TestC03(t *testing.T) {
 	if s := os.Getenv("VERIF_C03_SINGLE"); s != "" {
 		i, _ := strconv.Atoi(s)
 		ev.QuietGlog()
+		go func() { // the same memory watchdog as in the batch children
+			var ms runtime.MemStats
+			for {
+				time.Sleep(200 * time.Millisecond)
+				runtime.ReadMemStats(&ms)
+				if ms.Sys > 6<<30 {
+					os.Exit(4)
+				}
+			}
+		}()
 		_, src := newPlan(ev.Seed(), ev.Thorough()).input(i)
 		compileOnce(src)
 		return
@@ -682,7 +702,16 @@ func TestC03(t *testing.T) {
 				continue
 			}
 			// bounded time: confirm alone, in a fresh process, with a 5x budget
-			if fin, took := runAlone(cr.Index, 5*hangBudget); fin {
+			fin, took, code := runAloneCode(cr.Index, 5*hangBudget)
+			if fin && code != 0 {
+				cls = "process-died"
+				if code == 4 {
+					cls = "memory-blowup"
+				}
+				r.Violation(cls, map[string]any{"index": cr.Index, "input_quoted": quoteClip(string(cr.Input)), "what": fmt.Sprintf("re-run alone: the compile ended with exit code %d (4 = more than 6 GiB of memory)", code)})
+				continue
+			}
+			if fin {
 				r.Count("hang_candidates_not_reproduced", 1)
 				r.Set(fmt.Sprintf("slow_input_%d", cr.Index), map[string]any{"alone_ms": took.Milliseconds(), "input_quoted": quoteClip(string(cr.Input))})
 				continue
